@@ -57,7 +57,10 @@ def spectral_clustering(H, k=2, max_iter=1_000, seed=None):
 
     # Compute normalize Laplacian and its spectra
     L, rowdict = normalized_hypergraph_laplacian(H, index=True)
-    evals, eigs = eigsh(L, k=k, which="SA")
+    # The eigensolver's start vector is drawn from the seed; left to itself,
+    # eigsh draws it from fresh entropy and the clusters differ between calls.
+    v0 = np.random.default_rng(seed).uniform(-1, 1, L.shape[0])
+    evals, eigs = eigsh(L, k=k, which="SA", v0=v0)
 
     # Form metric space representation
     X = np.array(eigs)
